@@ -53,14 +53,14 @@ def _eq(a, b):
     return a == b
 
 
-def make_events(eng, k, nattr, kinds=None, wellformed_only=False, names=None, concrete_data=False):
+def make_events(eng, k, nattr, kinds=None, wellformed_only=False, names=None, concrete_data=False, aval_alpha='x" c'):
     ph = M["myst_parser.parsers.parse_html"]
     kinds = kinds or KINDS
     NAMES = names or globals()["NAMES"]
     ksel = [new_int(eng, "kind%d" % i, 0, len(kinds) - 1) for i in range(k)]
     nsel = [new_int(eng, "name%d" % i, 0, len(NAMES) - 1) for i in range(k)]
     na = [new_int(eng, "nattr%d" % i, 0, nattr) for i in range(k)]
-    avals = [[new_str(eng, "av%d_%d" % (i, j), 2, alphabet='x" c') for j in range(nattr)] for i in range(k)]
+    avals = [[new_str(eng, "av%d_%d" % (i, j), 2, alphabet=aval_alpha) for j in range(nattr)] for i in range(k)]
     anone = [[new_bool(eng, "an%d_%d" % (i, j)) for j in range(nattr)] for i in range(k)]
     alen = [[new_int(eng, "al%d_%d" % (i, j), 0, 2) for j in range(nattr)] for i in range(k)]
     data = [new_str(eng, "d%d" % i, 2, alphabet="t \n<") for i in range(k)]
@@ -446,6 +446,8 @@ def families(tier, seed):
         F.append(Family("tags/K%d" % k, make_events, "all sequences of %d start/end/startend/data events over names a,b,br (nesting logic), no attributes, concrete data" % k,
                         args=dict(k=k, nattr=0, kinds=["start", "end", "startend", "data"], names=["a", "b", "br"], concrete_data=True), nontrivial="roundtrip", max_forks=50000,
                         required=(k <= (4 if q else 5))))
+    F.append(Family("events/K2-A1-whitespace", make_events, "2 events (start/startend/end/data), <=1 attribute whose value is <=2 chars over 'x' + space, tab, newline, form feed, CR (class tokens are separated by any ASCII white space)",
+                    args=dict(k=2, nattr=1, aval_alpha="x \t\n\x0c\r", kinds=["start", "startend", "end", "data"], concrete_data=True), nontrivial="roundtrip", max_forks=50000))
     F.append(Family("mutators", make_mutators, "insert/__setitem__/append/reset_children x index x foreign-parent", nontrivial="roundtrip"))
     F.append(Family("text/sequence", make_text_sequence, "an unterminated text from %r, then a well-formed text of 3 pieces: round trip of the second call" % (POISON,), args=dict(k=3), nontrivial="roundtrip", max_forks=20000))
     tpl = [("attr", ["<a ", (3, 'c="x '), ">t</a>"]), ("tag", ["<", (3, "ab/ >"), "x"]), ("ref", ["a&", (3, "#x1a;"), "b"]), ("comment", ["<!", (3, "-a>"), "-->"]),
